@@ -109,6 +109,13 @@ def check(ctx):
             f_loop = h
         elif "_validators" in attrs:
             v_loop = h
+    if f_loop is not None and v_loop is None and not any(isinstance(x, ast.Attribute) and x.attr == "_validators" for x in ast.walk(sv.node)):
+        ctx.ob("schema.every-validator", sv, "no reference to self._validators", False,
+               "Schema._validate never looks at the registered schema validators: they are not run")
+        return
+    if v_loop is not None and f_loop is None and not any(isinstance(x, ast.Attribute) and x.attr == "_fields" for x in ast.walk(sv.node)):
+        ctx.ob("schema.every-field", sv, "no reference to self._fields", False, "Schema._validate never looks at the schema's fields: no field is validated")
+        return
     ctx.need(f_loop is not None and v_loop is not None, "Schema._validate loops over _fields/_validators not found")
     ft = an.ft(sv)
 
